@@ -1004,12 +1004,13 @@ def oracle_mapping_text(text, remap=False):
         return None
     roles = {'reactants': r.reactants, 'reagents': r.reagents, 'products': r.products}
     nums = {k: [n for m in v for n in m] for k, v in roles.items()}
+    call = f'smiles({text!r}{", remap=True" if remap else ""})'
     for k, v in nums.items():
         if len(v) != len(set(v)):
-            return 'C15/mapping/not-injective', f'smiles({text!r}): atom numbers of the {k} are not pairwise different: {v}'
+            return 'C15/mapping/not-injective', f'{call}: atom numbers of the {k} are not pairwise different: {v}'
     bad = set(nums['reagents']) & (set(nums['reactants']) | set(nums['products']))
     if bad:
-        return 'C15/mapping/reagent-overlap', f'smiles({text!r}): reagents share the numbers {sorted(bad)} with reactants / products'
+        return 'C15/mapping/reagent-overlap', f'{call}: reagents share the numbers {sorted(bad)} with reactants / products'
     if remap:
         # remap=True must be a CONSISTENT renumbering of the reaction read without it: one injective map for all roles,
         # numbers 1..n without gaps, hence the same condensed graph
